@@ -1,6 +1,8 @@
 """C04 - derived quantities of a signal object never go stale (differential against a fresh object)."""
 import copy
+import hashlib
 import itertools
+import math
 
 import numpy as np
 from hypothesis import strategies as st
@@ -10,6 +12,7 @@ import eqsig
 
 from pbt import core, gen
 from pbt.core import enum_clause, machine_clause, history_machine_base, Violation
+from pbt.ref import ko as _ko
 
 PROPERTY = "C04"
 CLAUSES = []
@@ -82,7 +85,22 @@ def _cut(obj, args):
     return (lo, hi)
 
 
+def _build_rec(spec):
+    """Record spec -> float64 array: gen.build plus the 'mid' family of the mid-range clauses (noise x envelope on a slow
+    sine with a non-zero mean: every stretch of the record is distinct, nothing cancels, no quiet tail)."""
+    if spec.get("k") == "mid":
+        n = int(spec["n"])
+        t = np.arange(n) / float(n)
+        a = np.random.RandomState(int(spec["seed"])).standard_normal(n) * (0.25 + np.sin(np.pi * t) ** 2)
+        return a + 0.05 + 0.3 * np.sin(2 * np.pi * (3.3 * t + 0.1))
+    return gen.build(spec)
+
+
 def _periods(obj, args):
+    if "rlog" in args:  # [lowest T/dt, highest T/dt, count]: geometric spacing (long period lists of the mid-range clauses)
+        lo, hi, n = args["rlog"]
+        T = [float(x) for x in obj.dt * np.geomspace(lo, hi, int(n))]
+        return np.array(T) if args.get("as", "ndarray") == "ndarray" else T
     T = [r * obj.dt for r in args["ratios"]]
     if args.get("lead0"):
         T = [0.0] + T
@@ -103,11 +121,12 @@ def _roll_fw(obj, args):
 
 
 MUTATORS = {
-    "reset_values": lambda o, a: o.reset_values(np.array(gen.build(a["rec"]))),
+    "reset_values": lambda o, a: o.reset_values(np.array(_build_rec(a["rec"]))),
     "add_constant": lambda o, a: o.add_constant(a["c"]),
     "add_series": lambda o, a: o.add_series(_series(o, a)),
     "add_signal": lambda o, a: o.add_signal(eqsig.Signal(_series(o, a), o.dt)),
-    "butter_pass": lambda o, a: o.butter_pass(_cut(o, a), filter_order=a.get("order", 4), remove_gibbs=a.get("gibbs")),
+    "butter_pass": lambda o, a: o.butter_pass(_cut(o, a), filter_order=a.get("order", 4), remove_gibbs=a.get("gibbs"),
+                                              **{k: a[k] for k in ("gibbs_extra", "gibbs_range") if k in a}),
     "remove_average": lambda o, a: o.remove_average(section=a.get("section", -1)),
     "remove_poly": lambda o, a: o.remove_poly(poly_fit=a.get("k", 1)),
     "running_average": lambda o, a: o.running_average(width=a.get("w", 3)),
@@ -585,3 +604,705 @@ machine_clause(CLAUSES, "histories", C04Machine, Hist, quick=120, thorough=350, 
                     "non-trivial = some observable was read, then a change was made, then the same observable was read again",
                oracle="differential against a freshly constructed object (1e-10 of magnitude)",
                min_nontrivial=0.3)
+
+
+# ---------------------------------------------------------------------------
+# mid-range histories (added after round 5 of the seeding, DESIGN 8.5): records of 2e3..3e5 samples, 10..5000 smoothing
+# targets, 10..1000 response periods, and products of two dimensions - sizes at which a cache "kept only for mid-size
+# inputs", a blocked or a streamed variant would live.  Every case is a short scripted history: warm every observable,
+# apply a change, read EVERY observable again and compare with a fresh object, apply the next change ...
+
+RS_OBS = ("s_a", "s_v", "s_d")
+
+
+def _hh(*parts):
+    return int(hashlib.blake2b(":".join(str(p) for p in parts).encode(), digest_size=8).hexdigest(), 16)
+
+
+def _pick(seq, *parts):
+    return seq[_hh(*parts) % len(seq)]
+
+
+def _shuffled(seq, *parts):
+    return sorted(seq, key=lambda x: _hh(x, *parts))
+
+
+def _as(arr, a):
+    return np.array(arr, dtype=float) if a.get("as", "ndarray") == "ndarray" else [float(x) for x in arr]
+
+
+def _logf_n(o, a, n=None):
+    """`n` (default: as many as the object has now) log-spaced smoothing frequencies on [lo, hi]"""
+    return np.logspace(np.log10(a["lo"]), np.log10(a["hi"]), int(n if n is not None else len(o.smooth_fa_freqs)))
+
+
+def _same_ends(cur, p):
+    """A grid with the same first value, last value and length as `cur` but other interior points (ascending)."""
+    cur = np.asarray(cur, dtype=float)
+    u = np.linspace(0.0, 1.0, len(cur))
+    new = cur
+    for q in (p, p + 0.5):
+        new = cur[0] + (cur[-1] - cur[0]) * u ** q
+        new[0], new[-1] = cur[0], cur[-1]
+        if not np.array_equal(new, cur):
+            break
+    return new
+
+
+def _set_periods(o, T, via):
+    if via == "attr":
+        o.response_times = T
+    elif via == "gen":
+        o.gen_response_spectrum(response_times=T)
+    elif via == "generate":
+        o.generate_response_spectrum(response_times=T)
+    else:
+        o.response_series(response_times=T)
+
+
+def _periods_edge(o, a):
+    T = np.array(o.response_times, dtype=float)
+    T[a["i"]] *= a["c"]
+    _set_periods(o, T, a.get("via", "attr"))
+
+
+# mutators of the mid-range clauses whose arguments follow the object's CURRENT sizes (same number of targets / periods /
+# samples as the object has at that point of the history: a cache keyed by a shape is then stale, not rebuilt)
+MID_MUTATORS = {
+    "reset_same_len": lambda o, a: o.reset_values(_build_rec({"k": "mid", "n": o.npts, "seed": a["seed"]})),
+    "reset_new_len": lambda o, a: o.reset_values(_build_rec({"k": "mid", "n": a["n"], "seed": a["seed"]})),
+    "set_freqs_n": lambda o, a: setattr(o, "smooth_fa_freqs", _as(_logf_n(o, a), a)),
+    "set_frequencies_n": lambda o, a: setattr(o, "smooth_fa_frequencies", _as(_logf_n(o, a), a)),
+    "gen_smooth_w_freqs_n": lambda o, a: o.gen_smooth_fa_spectrum(smooth_fa_freqs=_logf_n(o, a)),
+    "set_by_range_n": lambda o, a: o.set_smooth_fa_frequecies_by_range((a["lo"], a["hi"]), len(o.smooth_fa_freqs)),
+    "set_freqs_same_ends": lambda o, a: setattr(o, "smooth_fa_freqs", _same_ends(o.smooth_fa_freqs, a["p"])),
+    "set_periods_n": lambda o, a: _set_periods(o, _as(o.dt * np.geomspace(a["rlo"], a["rhi"], len(o.response_times)), a),
+                                               a.get("via", "attr")),
+    "set_periods_same_ends": lambda o, a: _set_periods(o, _same_ends(o.response_times, a["p"]), a.get("via", "attr")),
+    "set_periods_edge": _periods_edge,
+}
+
+
+def _kw(a, names):
+    return {k: a[k] for k in names if k in a}
+
+
+def _oneoff_smooth(o, a):
+    kw = _kw(a, ("band",))
+    if "lo" in a:
+        kw["smooth_fa_freqs"] = _logf_n(o, a, a.get("n"))
+    if a.get("via") == "generate":  # generate_smooth_fa_spectrum takes the band only
+        o.generate_smooth_fa_spectrum(**_kw(a, ("band",)))
+    else:
+        o.gen_smooth_fa_spectrum(**kw)
+
+
+def _oneoff_fa(o, a):
+    o.gen_fa_spectrum(**_kw(a, ("p2_plus", "n")))
+    o.gen_smooth_fa_spectrum()  # the smoothed spectrum of THAT Fourier spectrum, on the object and on the fresh one
+
+
+def _oneoff_rs(o, a):
+    kw = {}
+    if "rlo" in a:
+        kw["response_times"] = o.dt * np.geomspace(a["rlo"], a["rhi"], int(a.get("n") or len(o.response_times)))
+    if "xi" in a:
+        kw["xi"] = a["xi"]
+    if "mdr" in a:
+        kw["min_dt_ratio"] = a["mdr"]
+    (o.generate_response_spectrum if a.get("via") == "generate" else o.gen_response_spectrum)(**kw)
+
+
+# explicit (re)generation calls with NON-default one-off arguments (band, p2_plus / n, xi, min_dt_ratio, trap): not settings,
+# so the reference is a fresh object on which the same call is made; the next step of the script is always a change of the
+# values, after which the plain fresh object is the reference again
+ONEOFF = {
+    "oneoff_smooth": _oneoff_smooth,
+    "oneoff_fa": _oneoff_fa,
+    "oneoff_rs": _oneoff_rs,
+    "oneoff_dv": lambda o, a: o.generate_displacement_and_velocity_series(**_kw(a, ("trap",))),
+}
+# steps that compute an observable at once: an exception there is the library failing to produce a value (a violation)
+COMPUTING = {"gen_smooth_w_freqs_n", "gen_smooth_w_freqs", "gen_rs_w_times", "response_series_w_times"}
+
+
+def _mid_apply(ctx, obj, mut, args, what):
+    fn = ONEOFF.get(mut) or MID_MUTATORS.get(mut) or MUTATORS[mut]
+    try:
+        fn(obj, args)
+    except Violation:
+        raise
+    except MemoryError as e:
+        raise core.Inconclusive("out of memory in %s: %s" % (mut, str(e)[:120]))
+    except Exception as e:  # noqa
+        if mut in ONEOFF or mut in COMPUTING or args.get("via", "attr") != "attr":
+            ctx.fail("%s: %s(%r) raised %s: %s" % (what, mut, args, type(e).__name__, str(e)[:200]))
+        raise core.HarnessError("%s(%r) raised %s: %s on a scripted mid-range record" % (mut, args, type(e).__name__, str(e)[:160]))
+
+
+def _rd(ctx, obj, nm, what):
+    try:
+        return getattr(obj, nm)
+    except MemoryError as e:
+        raise core.Inconclusive("out of memory reading %s: %s" % (nm, str(e)[:120]))
+    except Exception as e:  # noqa
+        ctx.fail("%s: reading %s raised %s: %s" % (what, nm, type(e).__name__, str(e)[:200]))
+
+
+def _same(a, b):
+    return np.array_equal(np.asarray(a), np.asarray(b), equal_nan=True)
+
+
+def _mid_compare_all(ctx, obj, fresh, obs, what, key):
+    """Every observable of `obs`: the object's value against the fresh object's (1e-10 of magnitude, like the other clauses),
+    an immediate second read bit for bit, and - after all the others have been read - a third read bit for bit (reading one
+    observable must not change another).  The object is read in a hash-chosen order, the fresh object in the listed order."""
+    want = {}
+    for nm in obs:
+        want[nm] = np.array(_rd(ctx, fresh, nm, what + " (fresh object)"))
+    order = _shuffled(list(obs), key)
+    first = {}
+    for nm in order:
+        got = _rd(ctx, obj, nm, what)
+        compare(ctx, nm, got, want[nm], what)
+        first[nm] = np.array(got)
+        if not _same(_rd(ctx, obj, nm, what), first[nm]):
+            ctx.fail("%s: second read of %s differs from the first" % (what, nm))
+    for nm in reversed(order):
+        if not _same(_rd(ctx, obj, nm, what), first[nm]):
+            ctx.fail("%s: %s changed while the other observables were read (order %s)" % (what, nm, order))
+
+
+def _anchor_smooth(ctx, obj, band, what, key):
+    """Independent spot check of the smoothed spectrum (two targets: a hash-chosen one and the last) against the Konno-Ohmachi
+    reference of C07 evaluated on the object's own Fourier spectrum.  The fresh object shares the process - and therefore any
+    process-wide state of the library - with the object under test; this anchor does not."""
+    f = np.asarray(obj.fa_freqs, dtype=float)
+    amp = np.asarray(obj.fa_spectrum)
+    targ = np.asarray(obj.smooth_fa_freqs, dtype=float)
+    got = np.asarray(obj.smooth_fa_spectrum)
+    if got.shape != targ.shape or len(targ) == 0 or not np.all(np.isfinite(amp)) or not _ko.longdouble_ok():
+        return
+    idx = sorted({_hh(key, "anchor") % len(targ), len(targ) - 1})
+    s_ref, cond = _ko.smooth(f, amp, targ[idx], band)
+    s_ref = np.asarray(s_ref, dtype=float)
+    for j, i in enumerate(idx):
+        if not np.isfinite(cond[j]) or not np.isfinite(s_ref[j]):
+            continue
+        tol = 1e-10 * abs(s_ref[j]) + cond[j] + core.TINY
+        if not abs(float(got[i]) - s_ref[j]) <= tol:
+            ctx.fail("%s: smooth_fa_spectrum[%d] (target %.6g Hz, band %r) = %r, the Konno-Ohmachi weighted mean of the object's own "
+                     "Fourier spectrum is %r (tol %.3g)" % (what, i, targ[i], band, got[i], s_ref[j], tol))
+
+
+def _mid_obj(case):
+    vals = _build_rec({"k": "mid", "n": case["n"], "seed": case["seed"]})
+    dt = case["dt"]
+    kw = {}
+    ctor = case.get("ctor", "freqs")
+    freqs = np.logspace(np.log10(case["flo"]), np.log10(case["fhi"]), int(case["nt"]))
+    if ctor in ("freqs", "both"):
+        kw["smooth_fa_freqs"] = freqs
+    if ctor in ("range", "both"):
+        kw["smooth_freq_range"] = (case["flo"] * 1.5, case["fhi"] * 0.5) if ctor == "both" else (case["flo"], case["fhi"])
+    if case["cls"] != "acc":
+        return eqsig.Signal(vals, dt, **kw)
+    rctor = case.get("rctor", "times")
+    if rctor in ("times", "both"):
+        kw["response_times"] = dt * np.geomspace(case["rlo"], case["rhi"], int(case["P"]))
+    if rctor in ("range", "both"):
+        kw["response_period_range"] = (case["rlo"] * dt, case["rhi"] * dt)
+    return eqsig.AccSignal(vals, dt, **kw)
+
+
+def _mid_run(case, ctx):
+    acc = case["cls"] == "acc"
+    try:
+        obj = _mid_obj(case)
+    except MemoryError as e:
+        raise core.Inconclusive("out of memory building the object: %s" % str(e)[:120])
+    obs = [nm for nm in (ACC_OBS if acc else SIG_OBS) if case.get("rs", True) or nm not in RS_OBS]
+    ctx.cls("cls=" + case["cls"], "fam=" + case["fam"], "n~2^%d" % int(round(math.log2(case["n"]))),
+            "rs-read" if acc and case.get("rs", True) else None)
+    ctx.nt(len(case["steps"]) > 0)
+    key = "%s:%s" % (case["seed"], case["n"])
+    if case.get("check_ctor"):
+        _mid_compare_all(ctx, obj, fresh_of(obj), obs, "freshly constructed (%s/%s)" % (case.get("ctor"), case.get("rctor")), key)
+    else:
+        for nm in _shuffled(list(obs), key, "warm"):
+            _rd(ctx, obj, nm, "warm-up")
+    hist = []
+    anchored = False
+    for i, (mut, args) in enumerate(case["steps"]):
+        hist.append(mut)
+        what = "n=%d, %d targets%s: warm all -> %s" % (case["n"], case["nt"], ", %d periods" % case["P"] if acc else "", " -> ".join(hist))
+        ctx.cls("mut=" + mut)
+        _mid_apply(ctx, obj, mut, args, what)
+        try:
+            fresh = fresh_of(obj)
+        except MemoryError as e:
+            raise core.Inconclusive("out of memory building the fresh object: %s" % str(e)[:120])
+        band = 40
+        if mut in ONEOFF:
+            _mid_apply(ctx, fresh, mut, args, what + " (same call on the fresh object)")
+            band = args.get("band", 40) if mut == "oneoff_smooth" else 40
+        _mid_compare_all(ctx, obj, fresh, obs, what, "%s:%d" % (key, i))
+        last = i == len(case["steps"]) - 1
+        smooth_step = mut.startswith(("set_f", "gen_smooth", "scale_freqs", "set_by", "oneoff_smooth", "oneoff_fa"))
+        if "smooth_fa_spectrum" in obs and (last or (smooth_step and not anchored)):
+            _anchor_smooth(ctx, obj, band, what, key)
+            anchored = anchored or smooth_step
+
+
+# -- scripts -----------------------------------------------------------------
+
+VAL_SIG = ["reset_same_len", "reset_shorter", "reset_half", "add_constant", "add_series", "add_signal", "butter_band",
+           "butter_low_gibbs", "butter_high", "remove_average", "remove_average_section", "remove_poly"]
+VAL_ACC = VAL_SIG + ["rebase_displacement", "zero_res_velocity", "zero_res_velocity_tz", "zero_res_displacement",
+                     "zero_res_disp_and_velocity", "zero_res_disp_and_velocity_tz"]
+LOOP_SIG = ["running_average"]                      # one Python-level iteration per sample: affordable for shorter records only
+LOOP_ACC = ["running_average", "rra_velocity", "rra_acc", "correct_me"]
+SMOOTH_SAME = ["set_freqs", "set_frequencies", "gen_smooth_w_freqs", "set_freq_range", "set_by_range_n", "scale_freqs_inplace",
+               "set_freqs_same_ends"]             # same number of targets, other values
+SMOOTH_LEN = ["set_freq_points", "set_freqs_new_len"]
+PER_ATTR = ["set_periods", "scale_periods_inplace", "set_periods_same_ends", "set_periods_tail", "set_periods_head"]
+PER_COMP = ["gen_rs_w_times", "generate_rs_w_times", "response_series_w_times"]
+PER_LEN = ["set_periods_new_len"]
+
+
+def _step(kind, st, key):
+    """Scripted step `kind` -> [mutator, JSON args]; `st` tracks the sizes of the object along the script."""
+    s = _hh(key, kind) % (2 ** 31 - 1)
+    u = (s % 1000) / 1000.0
+    n = st["n"]
+    flo, fhi = st["flo"] * (1.1 + 0.5 * u), st["fhi"] * (0.65 + 0.25 * u)
+    how = ("ndarray", "list")[s % 2]
+    if kind == "reset_same_len":
+        return ["reset_same_len", {"seed": s}]
+    if kind == "reset_shorter":   # a few samples fewer: almost always the same padded transform length
+        st["n"] = n - 1 - s % 7
+        return ["reset_new_len", {"n": st["n"], "seed": s}]
+    if kind == "reset_half":      # another octave: other transform length
+        st["n"] = n // 2 + 3 + s % 5
+        return ["reset_new_len", {"n": st["n"], "seed": s}]
+    if kind == "add_constant":
+        return ["add_constant", {"c": round(0.1 + u, 3)}]
+    if kind in ("add_series", "add_signal"):
+        return [kind, {"seed": s}]
+    if kind == "butter_band":
+        return ["butter_pass", {"lo": 0.04, "hi": 0.5, "order": 2, "gibbs": None}]
+    if kind == "butter_low_gibbs":
+        return ["butter_pass", {"lo": None, "hi": 0.3, "order": 4, "gibbs": ("start", "end", "mid")[s % 3]}]
+    if kind == "butter_high":
+        return ["butter_pass", {"lo": 0.05, "hi": None, "order": 3, "gibbs": None}]
+    if kind == "remove_average":
+        return ["remove_average", {}]
+    if kind == "remove_average_section":
+        return ["remove_average", {"section": 2 + s % max(1, n // 2)}]
+    if kind == "remove_poly":
+        return ["remove_poly", {"k": 1 + s % 3}]
+    if kind == "running_average":
+        return ["running_average", {"w": 3 + s % 9}]
+    if kind in ("rra_velocity", "rra_acc"):
+        return [kind, {"width": 5 + s % 9}]
+    if kind in ("rebase_displacement", "zero_res_velocity", "zero_res_displacement", "zero_res_disp_and_velocity", "correct_me"):
+        return [kind, {}]
+    if kind == "zero_res_velocity_tz":
+        return ["zero_res_velocity", {"tz": [0.2, 0.9]}]
+    if kind == "zero_res_disp_and_velocity_tz":
+        return ["zero_res_disp_and_velocity", {"tz": [0.1, None] if s % 2 else [0.15, 0.85]}]
+    if kind == "set_freqs":
+        return ["set_freqs_n", {"lo": flo, "hi": fhi, "as": how}]
+    if kind == "set_frequencies":
+        return ["set_frequencies_n", {"lo": flo, "hi": fhi, "as": how}]
+    if kind == "gen_smooth_w_freqs":
+        return ["gen_smooth_w_freqs_n", {"lo": flo, "hi": fhi}]
+    if kind == "set_freq_range":
+        return ["set_freq_range", {"lo": flo, "hi": fhi}]
+    if kind == "set_by_range_n":
+        return ["set_by_range_n", {"lo": flo, "hi": fhi}]
+    if kind == "scale_freqs_inplace":
+        return ["scale_freqs_inplace", {"c": (1.25, 0.8)[s % 2]}]
+    if kind == "set_freqs_same_ends":
+        return ["set_freqs_same_ends", {"p": (1.0, 1.7)[s % 2]}]
+    if kind == "set_freq_points":
+        st["nt"] = max(3, st["nt"] // 2 + s % 3) if s % 2 else st["nt"] + 1 + s % 3
+        return ["set_freq_points", {"n": st["nt"]}]
+    if kind == "set_freqs_new_len":
+        st["nt"] = max(3, st["nt"] // 2 + s % 3) if s % 2 else st["nt"] + 1 + s % 3
+        return ["set_freqs", {"logspace": [flo, fhi, st["nt"]], "as": how}]
+    rlo, rhi = st["rlo"] * (1.0 + 0.25 * u), st["rhi"] * (0.7 + 0.2 * u)
+    if kind in ("set_periods", "gen_rs_w_times", "generate_rs_w_times", "response_series_w_times"):
+        via = {"set_periods": "attr", "gen_rs_w_times": "gen", "generate_rs_w_times": "generate", "response_series_w_times": "series"}[kind]
+        return ["set_periods_n", {"rlo": rlo, "rhi": rhi, "via": via, "as": how}]
+    if kind == "scale_periods_inplace":
+        return ["scale_periods_inplace", {"c": (1.1, 1.0 / 1.1)[s % 2]}]
+    if kind == "set_periods_same_ends":
+        return ["set_periods_same_ends", {"p": (1.0, 1.7)[s % 2], "via": ("attr", "gen")[(s // 2) % 2] if st.get("rs") else "attr"}]
+    if kind == "set_periods_tail":   # only the last period differs
+        return ["set_periods_edge", {"i": -1, "c": 1.07, "via": ("attr", "gen")[s % 2] if st.get("rs") else "attr"}]
+    if kind == "set_periods_head":   # only the first (shortest) period differs
+        return ["set_periods_edge", {"i": 0, "c": 0.93, "via": ("attr", "gen")[s % 2] if st.get("rs") else "attr"}]
+    if kind == "set_periods_new_len":
+        st["P"] = max(3, st["P"] // 2 + s % 3) if s % 2 else st["P"] + 1 + s % 3
+        return ["set_response_times", {"rlog": [rlo, rhi, st["P"]], "as": how}]
+    raise KeyError(kind)
+
+
+def _oneoff_step(kind, st, key):
+    s = _hh(key, kind) % (2 ** 31 - 1)
+    u = (s % 1000) / 1000.0
+    if kind == "band":
+        return ["oneoff_smooth", {"band": (20, 57.5, 80)[s % 3], "via": ("gen", "generate")[(s // 3) % 2]}]
+    if kind == "freqs_band":
+        return ["oneoff_smooth", {"band": (20, 57.5, 80)[s % 3], "lo": st["flo"] * (1.1 + 0.5 * u), "hi": st["fhi"] * (0.65 + 0.25 * u)}]
+    raise KeyError(kind)
+
+
+LOOP_COST = {"running_average": 5e-6, "rra_velocity": 5e-6, "rra_acc": 5e-6, "correct_me": 1e-6}
+
+
+def _base(cls, n, idx, tag, nt=None, P=None, rlo=24.0, rhi=280.0, rs=None):
+    """Case skeleton: sizes, sampling step, RNG seed (from VERIF_SEED and the index), frequency / period ranges."""
+    seed = _hh(gen.run_seed(), tag, idx) % (2 ** 31 - 1)
+    dt = (0.005, 0.01, 0.02)[seed % 3]
+    npad = 2 ** int(math.ceil(math.log2(n)))
+    df = 1.0 / (npad * dt)
+    if nt is None:   # few targets: the product with the number of Fourier frequencies stays below about 1e6 (the products have their own clause)
+        nt = int(max(5, min(30, (3e5 * (1 + 2 * (seed % 1000) / 1000.0)) // (npad // 2))))
+    if P is None:
+        P = 3 + seed % 6
+    if rs is None:
+        rs = n <= 6000
+    return {"cls": cls, "fam": tag.split(":")[1], "n": int(n), "dt": dt, "seed": int(seed), "nt": int(nt),
+            "flo": round(max(0.1, 4 * df), 5), "fhi": round(0.6 * 0.5 / dt, 4), "P": int(P), "rlo": float(rlo), "rhi": float(rhi),
+            "rs": bool(rs and cls == "acc"), "steps": []}
+
+
+def _script(case, kinds, oneoff=()):
+    st = {k: case[k] for k in ("n", "nt", "P", "flo", "fhi", "rlo", "rhi", "rs")}
+    steps = []
+    for j, k in enumerate(kinds):
+        key = "%s:%d" % (case["seed"], j)
+        steps.append(_oneoff_step(k, st, key) if k in oneoff else _step(k, st, key))
+    case["steps"] = steps
+    case["kinds"] = list(kinds)
+    return case
+
+
+def _est(case):
+    """Rough CPU seconds of a case (measured constants): used only to spread the cases evenly over the shards."""
+    n, acc = case["n"], case["cls"] == "acc"
+    npad = 2 ** int(math.ceil(math.log2(n)))
+    per = 1.0e-7 * npad + 1.1e-7 * (npad // 2) * case["nt"] + (5e-7 * n if acc else 0.0) + 2e-7 * n
+    if acc and case.get("rs", True):
+        fac = min(max(4, case.get("mdr", 4)), max(1, math.ceil(20.0 / case["rlo"])))
+        per += n * fac * (1.1e-5 + 3.5e-8 * case["P"])
+    t = per * (1 + 2 * len(case["steps"]) + (1 if case.get("check_ctor") else 0)) + 0.01
+    for k in case.get("kinds", []):
+        t += LOOP_COST.get(k, 0.0) * n
+        if k == "response_series_w_times":
+            t += n * (1.1e-5 + 3.5e-8 * case["P"])
+    return t + 8e-7 * (npad // 2)
+
+
+def _deal(cases, shard, nshards):
+    """Deterministic partition of the cases over the shards (longest first onto the least loaded shard)."""
+    load = [0.0] * nshards
+    mine = []
+    for i in sorted(range(len(cases)), key=lambda i: (-_est(cases[i]), i)):
+        k = min(range(nshards), key=lambda j: (load[j], j))
+        load[k] += _est(cases[i])
+        if k == shard:
+            mine.append(i)
+    for i in sorted(mine):
+        c = dict(cases[i])
+        c.pop("kinds", None)
+        yield c
+
+
+def _chunks(seq, k):
+    return [seq[i:i + k] for i in range(0, len(seq), k)]
+
+
+# -- 1. record length ---------------------------------------------------------
+
+def _len_cases(tier):
+    quick = tier == "quick"
+    hi = 300000 if quick else 2000000
+    # the ladder covers [2000, 0.62 hi]; the upper end itself is always a size (a window that opens above ~0.6 hi is met there)
+    sizes = sorted(set(gen.size_ladder(2000, int(0.62 * hi), 11 if quick else 24, "c04:len:" + tier, mined_limit=4 if quick else 12)) | {2000, hi})
+    every = 3 if quick else 1
+    loop_max = 20000 if quick else 80000
+    cases = []
+    for i, n in enumerate(sizes):
+        for cls in ("acc", "sig"):
+            acc = cls == "acc"
+            pool = (VAL_ACC + LOOP_ACC + SMOOTH_SAME + SMOOTH_LEN + PER_ATTR + PER_LEN) if acc else (VAL_SIG + LOOP_SIG + SMOOTH_SAME + SMOOTH_LEN)
+            kinds = [k for j, k in enumerate(pool) if (i + j) % every == 0]
+            kinds = [k for k in kinds if k not in LOOP_COST or n <= (5 * loop_max if k == "correct_me" else loop_max)]
+            kinds = _shuffled(kinds, gen.run_seed(), n, cls)
+            for f, chunk in enumerate(_chunks(kinds, 5)):
+                c = _base(cls, n, "%d:%s:%d" % (i, cls, f), "c04:length:" + tier)
+                cases.append(_script(c, chunk))
+    return cases
+
+
+def _len_enum(tier, shard, nshards):
+    return _deal(_len_cases(tier), shard, nshards)
+
+
+enum_clause(CLAUSES, "mid-range", _len_enum,
+            rule="record length laddered from 2 000 to 300 000 samples (quick: 11 log-bins to 186 000 + both ends + sizes aimed at integer literals of "
+                 "the source; thorough: 24 bins to 2 000 000), AccSignal and Signal; per length every third (thorough: every) one of 36 / 22 "
+                 "scripted changes (each in-place mutator incl. three Butterworth forms, same-length / shorter / half-length reset_values, "
+                 "time-zone variants; every smoothing-frequency setter with the SAME number of targets, same end points, another count; "
+                 "period setters) in histories of <= 5 steps: warm every observable, change, re-read EVERY observable, change ...; "
+                 "response spectra are read for records <= 6 000 samples, per-sample Python-loop mutators applied to <= 20 000 (thorough 80 000)",
+            oracle="differential against a fresh object after every step (1e-10 of magnitude), second and third read bit for bit; "
+                   "smoothed spectrum additionally anchored on two targets to the Konno-Ohmachi reference of C07 (1e-10 + conditioning bound)",
+            exhaustive_note="one history family per ladder size; not exhaustive over sizes", quick_shards=4)(_mid_run)
+
+
+# -- 2. response spectra: record length, number of periods, periods x samples ---------------------------------
+
+PER_SAME = ["set_periods", "gen_rs_w_times", "generate_rs_w_times", "response_series_w_times", "scale_periods_inplace",
+            "set_periods_same_ends", "set_periods_tail", "set_periods_head"]
+
+
+def _rs_script(c, idx, loop_ok, extra=0):
+    """[periods changed (same count), values changed, periods changed again (other route / other count) or a smoothing setting]:
+    the kinds rotate with the index of the case and with VERIF_SEED, so that all of them meet all size classes."""
+    r = idx + gen.run_seed()
+    vals = VAL_ACC + (LOOP_ACC if loop_ok else [])
+    third = PER_LEN + ["set_freqs", "set_freq_points"] + PER_SAME
+    kinds = [PER_SAME[r % len(PER_SAME)], vals[(5 * r + 1) % len(vals)], third[(3 * r + 2) % len(third)]]
+    for e in range(extra):
+        kinds += [vals[(5 * r + 7 + 3 * e) % len(vals)], PER_SAME[(r + 3 + e) % len(PER_SAME)]]
+    return _script(c, kinds)
+
+
+def _rs_cases(tier):
+    quick = tier == "quick"
+    nmax = 24000 if quick else 120000
+    pmax = 1000 if quick else 3000
+    tag = "c04:spectra:" + tier
+    extra = 0 if quick else 1
+    cases = []
+    idx = 0
+    # (a) record length, a handful of periods, no interpolation (shortest period >= 20 steps)
+    for n in sorted(set(gen.size_ladder(2000, nmax, 6 if quick else 14, tag + ":n", mined_limit=3 if quick else 8)) | {nmax}):
+        c = _base("acc", n, "a%d" % idx, tag, nt=8, rs=True)
+        cases.append(_rs_script(c, idx, n <= 20000, extra))
+        idx += 1
+    # (b) the object interpolates the record 2, 3 or 4 times finer (shortest period 12, 8, 6.8 steps)
+    for n in gen.ladder(2000, 9000 if quick else 40000, 4 if quick else 9, tag + ":i"):
+        c = _base("acc", n, "b%d" % idx, tag, nt=8, rs=True, rlo=(12.0, 8.0, 6.8)[(idx + gen.run_seed()) % 3], rhi=200.0)
+        cases.append(_rs_script(c, idx, True, extra))
+        idx += 1
+    # (c) number of periods
+    for P in sorted(set(gen.size_ladder(10, pmax, 7 if quick else 14, tag + ":p", mined_limit=3 if quick else 6)) | {10, pmax}):
+        n = 2000 + _hh(gen.run_seed(), tag, "pn", P) % 1500
+        c = _base("acc", n, "c%d" % idx, tag, nt=8, P=P, rs=True)
+        cases.append(_rs_script(c, idx, True, extra))
+        idx += 1
+    # (d) periods x samples
+    for P, n in gen.product_pairs(1e5, 1e7 if quick else 2e7, 7 if quick else 14, (10, pmax), (2000, nmax), tag + ":x"):
+        c = _base("acc", n, "d%d" % idx, tag, nt=8, P=P, rs=True)
+        c["fam"] = "spectra-product"
+        cases.append(_rs_script(c, idx, n <= 20000, extra))
+        idx += 1
+    return cases
+
+
+enum_clause(CLAUSES, "mid-range-spectra", lambda tier, shard, nshards: _deal(_rs_cases(tier), shard, nshards),
+            rule="AccSignal with all 15 observables read (response spectra included) after every step: (a) record length laddered 2 000..24 000 "
+                 "(thorough 120 000; one Python iteration per sample makes longer records unaffordable), (b) records of 2 000..9 000 (40 000) "
+                 "samples whose shortest period makes the object interpolate 2, 3 or 4 times finer, (c) 10..1000 (3000) periods, (d) periods x "
+                 "samples from 1e5 to 1e7 (2e7); history = periods changed keeping their number (assignment, gen_/generate_response_spectrum, "
+                 "response_series, in-place scaling, same end points, only the last / only the first period), an in-place mutator of the values, "
+                 "periods changed again (other route or other count) or a smoothing setting; kinds rotate with the index and the seed",
+            oracle="differential against a fresh object after every step (1e-10 of magnitude), second and third read bit for bit",
+            exhaustive_note="one history per ladder size; not exhaustive over sizes", quick_shards=4)(_mid_run)
+
+
+# -- 3. smoothed spectrum: number of targets, Fourier frequencies x targets -----------------------------------
+
+def _split_product(total, key, n_lo, n_hi, nt_lo=10, nt_hi=5000):
+    """(record length, number of targets) whose padded one-sided spectrum (2^e points, n in (2^e, 2^(e+1)]) times the number
+    of targets is about `total`; e hash-chosen among the admissible exponents."""
+    es = [e for e in range(9, 24) if 2 ** e < n_hi and 2 ** (e + 1) >= n_lo and nt_lo <= -(-total // 2 ** e) <= nt_hi]
+    if not es:
+        return None
+    e = _pick(es, key, "e")
+    lo, hi = max(n_lo, 2 ** e + 1), min(n_hi, 2 ** (e + 1))
+    return lo + _hh(key, "n") % (hi - lo + 1), int(-(-total // 2 ** e))
+
+
+def _smooth_script(c, idx, product):
+    r = idx + gen.run_seed()
+    acc = c["cls"] == "acc"
+    vals = (VAL_ACC if acc else VAL_SIG) + (["running_average"] if c["n"] <= 20000 else [])
+    vals = [k for k in vals if k != "reset_half"]
+    kinds = [SMOOTH_SAME[r % len(SMOOTH_SAME)], vals[(5 * r + 1) % len(vals)]]
+    oneoff = ()
+    if product <= 1.0e7:
+        kinds.append(SMOOTH_SAME[(r + 3) % len(SMOOTH_SAME)])
+    if product <= 2.5e6:
+        oneoff = ("band", "freqs_band")
+        kinds += [oneoff[r % 2], vals[(5 * r + 4) % len(vals)], SMOOTH_LEN[r % 2]]
+    return _script(c, kinds, oneoff)
+
+
+def _smooth_cases(tier):
+    quick = tier == "quick"
+    tag = "c04:smooth:" + tier
+    n_hi = 300000 if quick else 1000000
+    cases = []
+    idx = 0
+    # (a) number of targets (records of about 1 100..2 000 samples: 1024 Fourier frequencies)
+    for nt in sorted(set(gen.size_ladder(10, 5000, 8 if quick else 18, tag + ":t", mined_limit=3 if quick else 6)) | {10, 5000}):
+        n = 1100 + _hh(gen.run_seed(), tag, "tn", nt) % 900
+        c = _base(("acc", "sig")[idx % 2], n, "a%d" % idx, tag, nt=nt, rs=True)
+        c["fam"] = "smooth-targets"
+        cases.append(_smooth_script(c, idx, 1024 * nt))
+        idx += 1
+    # (b) Fourier frequencies x targets
+    totals = list(gen.ladder(1e5, 3e7 if quick else 4e7, 9 if quick else 20, tag + ":x"))
+    totals += [int(m * 1.07) + 3 for m in gen.mined_ints(1e5, 3e7)][:4 if quick else 8]
+    for total in sorted(set(totals)):
+        sp = _split_product(total, "%s:%d:%d" % (tag, gen.run_seed(), total), 2000, n_hi)
+        if sp is None:
+            continue
+        n, nt = sp
+        c = _base(("sig", "acc")[idx % 2] if total <= 1.0e7 else "sig", n, "b%d" % idx, tag, nt=nt, rs=n <= 4000)
+        c["fam"] = "smooth-product"
+        cases.append(_smooth_script(c, idx, total))
+        idx += 1
+    return cases
+
+
+enum_clause(CLAUSES, "mid-range-smooth", lambda tier, shard, nshards: _deal(_smooth_cases(tier), shard, nshards),
+            rule="(a) 10..5000 smoothing targets (8 log-bins, thorough 18, + ends + source literals) on records with 1024 Fourier frequencies; "
+                 "(b) Fourier frequencies x targets laddered from 1e5 to 3e7 (9 log-bins, thorough 20 to 4e7, + products just above source "
+                 "literals), record 2 000..300 000 samples (thorough 1 000 000) and 10..5000 targets by a hash-chosen split; history = a "
+                 "smoothing setting changed keeping the number of targets (setter, deprecated setter, gen_smooth_fa_spectrum(freqs), range, "
+                 "by-range, in-place scaling, same end points), an in-place mutator of the values, [<= 1e7: a second same-count change], "
+                 "[<= 2.5e6: a one-off gen_/generate_smooth_fa_spectrum(band=20|57.5|80 [, freqs]), a mutator, another number of targets]; "
+                 "AccSignal / Signal alternate (Signal above 1e7); all observables re-read after every step",
+            oracle="differential against a fresh object after every step (after a one-off band: a fresh object given the same call), 1e-10 of "
+                   "magnitude, second and third read bit for bit; two targets anchored to the Konno-Ohmachi reference of C07",
+            exhaustive_note="one history per ladder size; not exhaustive over sizes", quick_shards=4)(_mid_run)
+
+
+# -- 4. option crosses of the explicit generation calls, of butter_pass and of the constructors ----------------
+
+def _opt_cases(tier):
+    quick = tier == "quick"
+    tag = "c04:options:" + tier
+    sizes = gen.ladder(2500, 30000 if quick else 120000, 2 if quick else 5, tag + ":n")
+    cases = []
+    idx = [0]
+
+    def add(cls, n, kinds_after, first, fam, **over):
+        c = _base(cls, n, "o%d" % idx[0], tag, **{k: over.pop(k) for k in list(over) if k in ("nt", "P", "rlo", "rhi", "rs")})
+        c["fam"] = fam
+        c.update(over)
+        _script(c, kinds_after)
+        c["steps"] = ([first] if first else []) + c["steps"]
+        c["kinds"] = (["-"] if first else []) + c["kinds"]
+        cases.append(c)
+        idx[0] += 1
+        return c
+
+    def val(cls, n):
+        pool = [k for k in (VAL_ACC if cls == "acc" else VAL_SIG) if k != "reset_half"]
+        return pool[(7 * idx[0] + gen.run_seed()) % len(pool)]
+
+    for n in sizes:
+        npad = 2 ** int(math.ceil(math.log2(n)))
+        # gen_fa_spectrum(p2_plus x n): n = None, an odd length above the record's, an even length below it
+        for p2 in (None, 0, 1, 2):
+            for nn in (None, npad + 1 + 2 * (n % 50), 2 * (n // 3)):
+                if p2 is None and nn is None:
+                    continue
+                a = {}
+                if p2 is not None:
+                    a["p2_plus"] = p2
+                if nn is not None:
+                    a["n"] = int(nn)
+                cls = ("acc", "sig")[idx[0] % 2]
+                add(cls, n, [val(cls, n)], ["oneoff_fa", a], "opt-fa", rs=False)
+        # gen_smooth_fa_spectrum(smooth_fa_freqs x band) and generate_smooth_fa_spectrum(band)
+        for fr in ("none", "same", "other"):
+            for band in (None, 20, 57.5):
+                for via in (("gen", "generate") if fr == "none" else ("gen",)):
+                    a = {"via": via}
+                    if band is not None:
+                        a["band"] = band
+                    if fr != "none":
+                        a.update({"lo": 0.3, "hi": 0.45 * 0.5 / 0.005})
+                    cls = ("sig", "acc")[idx[0] % 2]
+                    c = add(cls, n, [val(cls, n)], None, "opt-smooth", rs=False)
+                    if fr == "other":
+                        a["n"] = c["nt"] + 3
+                    c["steps"].insert(0, ["oneoff_smooth", a])
+        # generate_displacement_and_velocity_series(trap)
+        for trap in (None, True, False):
+            add("acc", n, [val("acc", n)], ["oneoff_dv", {} if trap is None else {"trap": trap}], "opt-dv", rs=False)
+        # butter_pass(cut-off form x filter_order x remove_gibbs x gibbs_extra x gibbs_range)
+        k = 0
+        for order in (2, 4):
+            for gibbs in (None, "start", "end", "mid"):
+                for extra in (None, 2):
+                    for rng in (None, 20):
+                        form = ("band", "low", "high")[(k + gen.run_seed()) % 3]
+                        k += 1
+                        a = {"lo": 0.05 if form != "low" else None, "hi": 0.45 if form != "high" else None,
+                             "order": 2 if form == "band" else order, "gibbs": gibbs}
+                        if extra is not None:
+                            a["gibbs_extra"] = extra
+                        if rng is not None:
+                            a["gibbs_range"] = rng
+                        cls = ("acc", "sig")[k % 2]
+                        add(cls, n, [], ["butter_pass", a], "opt-butter", rs=False)
+    # gen_response_spectrum / generate_response_spectrum (response_times x xi x min_dt_ratio): shortest period 3 steps, so that
+    # min_dt_ratio = 1 / 4 / 9 makes the object integrate on the record's grid / 4 times / 7 times finer
+    for n in gen.ladder(2000, 5000 if quick else 20000, 1 if quick else 3, tag + ":r"):
+        for tm in ("none", "same", "other"):
+            for xi in (None, 0.02, 0.3):
+                for mdr in (None, 1, 9):
+                    a = {"via": ("gen", "generate")[idx[0] % 2]}
+                    if xi is not None:
+                        a["xi"] = xi
+                    if mdr is not None:
+                        a["mdr"] = mdr
+                    if tm != "none":
+                        a.update({"rlo": 3.3, "rhi": 150.0})
+                    c = add("acc", n, [val("acc", n)], None, "opt-rs", rs=True, rlo=3.0, rhi=200.0, P=6, nt=8, mdr=mdr or 4)
+                    if tm == "other":
+                        a["n"] = c["P"] + 2
+                    c["steps"].insert(0, ["oneoff_rs", a])
+    # constructors: smoothing grid given as frequencies / range / both / neither x periods given as times / range / both / neither
+    n = 2000 + _hh(gen.run_seed(), tag, "ctor") % 2000
+    for ctor in ("freqs", "range", "both", "default"):
+        for rctor in ("times", "range", "both", "default"):
+            c = add("acc", n, [val("acc", n), SMOOTH_SAME[idx[0] % len(SMOOTH_SAME)], PER_SAME[idx[0] % len(PER_SAME)]], None, "opt-ctor",
+                    rs=True, rlo=5.0 if rctor in ("range", "default") else 24.0, rhi=250.0, P=100 if rctor in ("range", "default") else 5,
+                    nt=50 if ctor in ("range", "default") else 12, ctor=ctor, rctor=rctor, check_ctor=True)
+        c = add("sig", n, [val("sig", n), SMOOTH_SAME[idx[0] % len(SMOOTH_SAME)]], None, "opt-ctor", nt=50 if ctor in ("range", "default") else 12,
+                ctor=ctor, check_ctor=True)
+    return cases
+
+
+enum_clause(CLAUSES, "mid-range-options", lambda tier, shard, nshards: _deal(_opt_cases(tier), shard, nshards),
+            rule="option crosses at 2 (thorough 5) hash-chosen record lengths in 2 500..30 000 (120 000): gen_fa_spectrum(p2_plus in {-,0,1,2} x n in "
+                 "{-, odd > npts, even < npts}), gen_smooth_fa_spectrum(smooth_fa_freqs in {-, same count, other count} x band in {-,20,57.5}) and "
+                 "generate_smooth_fa_spectrum(band), generate_displacement_and_velocity_series(trap), gen_/generate_response_spectrum(response_times "
+                 "in {-, same count, other count} x xi in {-,0.02,0.3} x min_dt_ratio in {-,1,9}) with a shortest period of 3 steps (records of "
+                 "2 000..5 000 samples), each followed by an in-place mutator of the values; butter_pass(form x filter_order x remove_gibbs x "
+                 "gibbs_extra x gibbs_range); constructors (smooth_fa_freqs / smooth_freq_range / both / neither x response_times / "
+                 "response_period_range / both / neither) followed by a mutator and two settings changes; all observables read after every step",
+            oracle="differential: after a generation call with one-off arguments a fresh object given the same call, otherwise the plain fresh object "
+                   "(1e-10 of magnitude); second and third read bit for bit",
+            exhaustive_note="complete over the listed option values at the chosen lengths", quick_shards=4)(_mid_run)
